@@ -305,3 +305,88 @@ def loop(u: Unit):
         data_ok = dct.get("/data") is det["_data"]
         u.oblige(p, "scene_data.passthrough", bool(scene_ok and data_ok), {}, REC_REPLAY)
     u.cover("loop.cover", ps, lambda p: p.kind == "return")
+
+
+# ---- Detector.to_xarray: what the debug capture sees of the detector -----------------------------------------------------------------
+DEBUG_REPLAY = lambda w: {"code": """
+import numpy as np, xarray as xr, verif_probes as VP
+VIOLATED, DETAIL = False, 'the snapshot of the detector lists every initialised bucket with its own content'
+for cube in (False, True):
+    det = VP.detector(rows=2, cols=3)
+    if cube:
+        det.photon.array_3d = xr.DataArray(np.arange(12, dtype=float).reshape(2, 2, 3), dims=['wavelength', 'y', 'x'], coords={'wavelength': [500.0, 600.0]})
+    else:
+        det.photon.array = np.full((2, 3), 4.0)
+    det.signal.array = np.full((2, 3), 0.5)
+    ds = det.to_xarray()
+    names = sorted(ds.data_vars)
+    if names != ['photon', 'signal']:
+        VIOLATED, DETAIL = True, f'multi-wavelength photons: {cube}; initialised buckets photon and signal, snapshot holds {names}'; break
+    if float(np.asarray(ds['photon']).sum()) != (66.0 if cube else 24.0) or float(np.asarray(ds['signal']).sum()) != 3.0:
+        VIOLATED, DETAIL = True, 'snapshot values differ from the buckets'; break
+""", "expect": "Detector.to_xarray (used by the debug capture) holds every initialised bucket, multi-wavelength photons included"}
+
+
+@unit("C03", "detector.to_xarray")
+def detector_to_xarray(u: Unit):
+    """Detector.to_xarray (the snapshot the debug capture compares before / after each model): an entry for EVERY initialised bucket —
+    2-D photons and multi-wavelength cubes alike — holding that container's own export; uninitialised buckets (their export has no
+    dimension) and an all-zero charge are left out; nothing else is written."""
+    fi = u.fn("pyxel/detectors/detector.py::Detector.to_xarray")
+    for photon in ("empty", "2d", "3d"):
+        for pixel in (False, True):
+            cfg = D.install(Cfg("real"))
+            cfg.name_overrides["__version__"] = VStr("version")
+            state = {"photon": photon, "pixel": "2d" if pixel else "empty", "signal": "2d", "image": "empty", "charge": "2d"}
+            for cname, path in (("Photon", "photon.py"), ("Pixel", "pixel.py"), ("Signal", "signal.py"), ("Image", "image.py"), ("Charge", "charge.py"), ("ArrayBase", "array.py")):
+                q = f"{DS}{path}::{cname}.to_xarray"
+
+                def export(ex, args, kwargs, fr, cname=cname):
+                    me = args[0]
+                    bucket = next((k for k in ("photon", "pixel", "signal", "image", "charge") if ex.det_parts[k].addr == me.addr), None)
+                    nd = {"empty": 0, "2d": 2, "3d": 3}[state[bucket]]
+                    v = VOpaque("export", ex.st.fresh_int("export"), {"bucket": bucket, "ndim": nd})
+                    ex.hold.setdefault("exports", {})[bucket] = v
+                    return v
+                try:
+                    u.world.function(q)
+                    cfg.contracts[q] = Contract(q, export, "to_xarray.* (the container's own export)")
+                except Exception:
+                    pass
+            cfg.lib_overrides[("opaque_attr", "export")] = lambda ex, obj, name, fr: VInt(obj.info["ndim"]) if name == "ndim" else VLib("export." + name, obj)
+            cfg.lib_overrides[("compare", "export")] = lambda ex, op, a, b, fr: VOpaque("mask", None, {})
+            cfg.lib_overrides[("eq", "export")] = lambda ex, a, b, fr: VOpaque("mask", None, {})
+            cfg.lib_overrides[("opaque_attr", "mask")] = lambda ex, obj, name, fr: VLib("mask." + name, obj)
+            cfg.lib_overrides["mask.all"] = lambda ex, f, args, kwargs, fr: VBool(z3.Bool("charge_all_zero"))
+
+            def setup(ex):
+                ex.hold = {}
+                det = D.mk_detector(ex, u, prior="fresh")
+                for b, stt in state.items():       # the containers hold what `state` says (array / multi-wavelength cube / nothing)
+                    if b == "charge":
+                        continue
+                    cellb = ex.st.cell(ex.det_parts[b])
+                    if stt == "2d":
+                        cellb.fields["_array"] = D.sym_frame(ex, b + "0")
+                    elif stt == "3d":
+                        cellb.fields["_array"] = VOpaque("DataArray", ex.st.fresh_int("cube"), {"type": "xarray.DataArray"})
+                    else:
+                        cellb.fields["_array"] = NONE
+                return [det], {}
+            cfg.lib_overrides[("isinstance", "DataArray")] = lambda ex, v, libs, clss: VBool("xarray.DataArray" in libs)
+            tag = f"photon {photon}, pixel {'set' if pixel else 'empty'}"
+            ps = u.paths(fi, setup, cfg, label=f"Detector.to_xarray[{tag}]")
+            for p in ps:
+                if p.kind != "return":
+                    u.oblige(p, f"detector.to_xarray.no_raise[{tag}]", False, {"exc": p.exc_name()}, DEBUG_REPLAY)
+                    continue
+                stored = {}
+                for ev in p.st.events:
+                    if ev[0] == "xr_setitem" and ev[4] is p.value and isinstance(ev[2], VStr):
+                        stored[ev[2].v] = ev[3]
+                exp = p.ex.hold.get("exports", {})
+                want = {b for b, stt in state.items() if stt != "empty"}
+                ok_names = z3.And(*[zb(b in stored) if b != "charge" else (zb("charge" in stored) == z3.Not(z3.Bool("charge_all_zero"))) for b in want], zb(not (set(stored) - want)))
+                ok_vals = all(stored[b] is exp.get(b) for b in stored)
+                u.oblige(p, f"detector.to_xarray.every_initialised_bucket_with_its_own_export[{tag}]", z3.And(ok_names, zb(ok_vals)), {"stored": str(sorted(stored))}, DEBUG_REPLAY)
+            u.cover(f"detector.to_xarray.cover[{tag}]", ps, lambda p: p.kind == "return")
